@@ -3,4 +3,4 @@ From Coq Require Import ZArith.
 Require Import ExtrOcamlBasic.
 Extraction Language OCaml.
 (* Z.of_N only so that the shared OCaml prelude finds the type z *)
-Extraction "model.ml" load marshal conf_b project consistent_b json_eqb Z.of_N.
+Extraction "model.ml" load marshal conf_b project consistent_b proj_chk json_eqb Z.of_N.
